@@ -266,6 +266,33 @@ func extractKill(p *pkgs, f *facts) {
 	} else {
 		f.miss = append(f.miss, "CleanupClients")
 	}
+	// Kill is serialised: its body begins with `c.<M>.Lock()` followed by `defer c.<M>.Unlock()`, <M> is not the client's
+	// field lock `l`, and nothing else in the package locks <M> (so nothing can hold it while waiting for a Kill)
+	serialised := false
+	if kf := p.fn("Client", "Kill"); kf != nil && len(kf.Body.List) >= 2 {
+		if es, ok := kf.Body.List[0].(*ast.ExprStmt); ok {
+			call := exprString(es.X)
+			if strings.HasPrefix(call, "c.") && strings.HasSuffix(call, ".Lock()") && call != "c.l.Lock()" {
+				mu := strings.TrimSuffix(call, ".Lock()")
+				if ds, ok := kf.Body.List[1].(*ast.DeferStmt); ok && exprString(ds.Call) == mu+".Unlock()" {
+					locks := 0
+					for _, file := range p.files {
+						ast.Inspect(file, func(n ast.Node) bool {
+							if ce, ok := n.(*ast.CallExpr); ok {
+								if fn := exprString(ce.Fun); strings.HasSuffix(fn, strings.TrimPrefix(mu, "c")+".Lock") || strings.HasSuffix(fn, strings.TrimPrefix(mu, "c")+".TryLock") {
+									locks++
+								}
+							}
+							return true
+						})
+					}
+					serialised = locks == 1
+				}
+			}
+		}
+	}
+	f.lean = append(f.lean, fmt.Sprintf("def killOverlap : Kill.OverlapParams := ⟨%s⟩", leanBool(serialised)))
+	f.set("killOverlap", map[string]interface{}{"serialised": serialised})
 	f.lean = append(f.lean, fmt.Sprintf("def cleanupClients : Kill.CleanupParams := ⟨%s, %s, %s⟩", leanBool(regs), leanBool(each), leanBool(waits)))
 	f.set("cleanupClients", map[string]interface{}{"registersAtConstruction": regs, "killsEach": each, "waitsAll": waits})
 	f.lean = append(f.lean, fmt.Sprintf("def kill : Kill.Params := ⟨%d, %s, %s, %s, %s, %s, %s, %s, %s⟩",
